@@ -407,6 +407,19 @@ class PKey:
         """
         return False
 
+    @staticmethod
+    def _get_sig_algorithm(msg):
+        """
+        Read the algorithm name that leads an SSH signature message.
+
+        Returns ``None`` if the field is not valid UTF-8: such a name matches
+        no algorithm, and ``verify_ssh_sig`` must answer, not raise.
+        """
+        try:
+            return msg.get_text()
+        except UnicodeDecodeError:
+            return None
+
     @classmethod
     def from_private_key_file(cls, filename, password=None):
         """
